@@ -270,3 +270,51 @@ Proof.
   intros [[H _]|[_ [_ H]]]; vm_compute in H; discriminate H.
 Qed.
 Eval vm_compute in (tob (rem_floored (ofb 3212836864) (ofb 1077936128)), tob (f32_2 OI FRem (ofb 3212836864) (ofb 1077936128))).
+
+(* ---- sign-bit tricks of the SSE2 backend (m128_abs, negation by xor, the is_finite test |x| < inf) *)
+Section Lane4.
+Variable O : Ops.
+Definition abs_lane (v : F32 O) : F32 O := f32_2 O FAnd v (f32_of_bits O (i_cast O I32 U32 2147483647)).      (* _mm_castsi128_ps(_mm_set1_epi32(0x7fffffff)) *)
+Definition neg_lane (v : F32 O) : F32 O := f32_2 O FXor (f32_of_bits O 2147483648) v.
+Definition finite_lane (v : F32 O) : bool := f32_cmp O FLt (abs_lane v) (f32_of_bits O 2139095040).
+End Lane4.
+Lemma abs_lane_correct : forall v : binary32, abs_lane OI v = f32_1 OI FAbs v.
+Proof. intros v. unfold abs_lane, OI, IEEEr, IEEE. cbn [f32_2 f32_1 f32_of_bits f32_2s f32_1s i_cast]. change (wrap U32 2147483647) with 2147483647. rewrite (tob_ofb32 2147483647) by lia. reflexivity. Qed.
+Lemma neg_lane_correct : forall v : binary32, neg_lane OI v = f32_1 OI FNeg v.
+Proof. intros v. unfold neg_lane, OI, IEEEr, IEEE. cbn [f32_2 f32_1 f32_of_bits f32_2s f32_1s]. rewrite (tob_ofb32 2147483648) by lia. rewrite Z.lxor_comm. reflexivity. Qed.
+Lemma finite_lane_correct : forall v : binary32, finite_lane OI v = f32_pred OI FIsFinite v.
+Proof.
+  intros v. unfold finite_lane. rewrite abs_lane_correct. unfold OI, IEEEr, IEEE. cbn [f32_1 f32_cmp f32_pred f32_of_bits f32_1s].
+  assert (Einf : ofb32 2139095040 = B754_infinity 24 128 false) by (vm_compute; reflexivity).
+  rewrite Einf.
+  destruct v as [s|s|s pl H|s m e H].
+  - destruct s; vm_compute; reflexivity.
+  - destruct s; vm_compute; reflexivity.
+  - (* NaN: the masked value is still a NaN, every comparison with it is false *)
+    assert (N : is_nan 24 128 (ofb32 (Z.land (bits_of_b32 (B754_nan 24 128 s pl H)) 2147483647)) = true).
+    { unfold bits_of_b32, bits_of_binary_float. pose proof (nan_pl_bound pl H). change (Zpower 2 8 - 1) with 255. rewrite join_abs by lia.
+      rewrite ofb32_ofb by lia. replace (255 * 8388608 + Z.pos pl) with (tob (B754_nan 24 128 false pl H)).
+      - rewrite ofb_tob. reflexivity.
+      - unfold tob, bits_of_b32, bits_of_binary_float. change (Zpower 2 8 - 1) with 255. unfold join_bits. rewrite Z.shiftl_mul_pow2 by lia. change (2^23) with 8388608. lia. }
+    destruct (ofb32 (Z.land (bits_of_b32 (B754_nan 24 128 s pl H)) 2147483647)) as [| | |]; try discriminate N. reflexivity.
+  - destruct (abs_bits (B754_finite 24 128 s m e H) eq_refl) as [_ F].
+    assert (E : ofb32 (Z.land (bits_of_b32 (B754_finite 24 128 s m e H)) 2147483647) = ofb (Z.land (tob (B754_finite 24 128 s m e H)) 2147483647)).
+    { apply ofb32_ofb. pose proof (tob_range' (B754_finite 24 128 s m e H)). unfold tob. apply land_range; lia. }
+    rewrite E. destruct (ofb (Z.land (tob (B754_finite 24 128 s m e H)) 2147483647)) as [| | |]; try discriminate F; reflexivity.
+Qed.
+
+Section Lane5.
+Variable O : Ops.
+(* Vec4/Vec3A::copysign: (rhs & -0.0) | (!-0.0 & self) *)
+Definition copysign_lane (a b : F32 O) : F32 O :=
+  f32_2 O FOr (f32_2 O FAnd b (f32_of_bits O 2147483648)) (f32_2 O FAndNot (f32_of_bits O 2147483648) a).
+End Lane5.
+Lemma copysign_lane_correct : forall a b : binary32, copysign_lane OI a b = f32_2 OI FCopysign a b.
+Proof.
+  intros a b. unfold copysign_lane, OI, IEEEr, IEEE. cbn [f32_2 f32_of_bits f32_2s]. unfold copysign32.
+  rewrite (tob_ofb32 2147483648) by lia. change (Z.lxor 2147483648 4294967295) with 2147483647.
+  pose proof (tob_range' a) as Ha. pose proof (tob_range' b) as Hb.
+  rewrite (tob_ofb32 (Z.land (bits_of_b32 b) 2147483648)) by (apply land_range; lia).
+  rewrite (tob_ofb32 (Z.land 2147483647 (bits_of_b32 a))) by (rewrite Z.land_comm; apply land_range; lia).
+  rewrite Z.lor_comm. rewrite (Z.land_comm 2147483647). reflexivity.
+Qed.
